@@ -131,6 +131,9 @@ def check_params(run: Run, griffe, cases: list, variants=(0, 1, 2, 3)):
                 continue
             if variant == 3 and not any(p["default"] != "none" for p in case["ref"]):
                 continue
+            # the expression spellings do not depend on the kind of function: plain `def` and stored lambdas carry them
+            if variant in (2, 3) and case["ctx"] not in ("def", "lambda"):
+                continue
             src, access = render_case(case, variant)
             sig = {"part": "params", "ctx": case["ctx"], "npos": case["npos"], "nargs": case["nargs"], "ndef": case["ndef"], "vararg": case["vararg"], "nkw": case["nkw"], "kwarg": case["kwarg"], "annotated": case["annotated"]}
             ident = dict(sig, kwmask=case["kwmask"], variant=variant)
